@@ -42,6 +42,12 @@ MOL_STRINGS = [
     "{[#TC5]1[#TC5][#TC5]1}.{#TC5=[$]cc[$]}",
     "{[#Hter][#PS]|2[#Hter]}.{#PS=[$]CC[$]c1ccccc1,#Hter=[$][H]}",
     "{[#A]}.{#A=CCO}",
+    # one heavy atom and its hydrogens
+    "{[#A]}.{#A=C}",
+    "{[#A]}.{#A=O}",
+    "{[#A]}.{#A=N}",
+    "{[#A]}.{#A=Cl}",
+    "{[#A][#B]}.{#A=[$]C,#B=[$][H]}",
 ]
 
 
